@@ -289,6 +289,12 @@ Definition entry_from (rs : list rtree) : rtree :=
 Definition relations_from (es : list rtree) : rtree :=
   Node ROOT (sep_by [Tok COMMA [44%N]; sp] es).
 
+(* the trees these constructors give for relations built by Relation::wrap_and_sort from accessor
+   values: one entry, a whole field (entries, then substitution-variable nodes) *)
+Definition entry_tree (V : variant) (ws : list wrel) : rtree := entry_from (map (wrel_tree V) ws).
+Definition field_tree (V : variant) (es : list (list wrel)) (svs : list rtree) : rtree :=
+  relations_from (map (entry_tree V) es ++ svs).
+
 Fixpoint res_map {A B} (f : A -> res B) (l : list A) : res (list B) :=
   match l with
   | [] => Ok []
